@@ -58,8 +58,11 @@ class Scenario:
         # handed to the wrong caller is visible even when both threads run the same problem
         self.inputs = []
         for k in range(len(self.calls) + 1):
-            b = Tensor.from_dok({(0,): 1.5 + k, (2,): 2.5, (3 - (k % 2),): 1.0 + 2 * k}, dimensions=(4,), format="s")
-            c = Tensor.from_dok({(2,): 4.0 * (k + 1), ((3 + k) % 4,): 8.0}, dimensions=(4,), format="s")
+            # ... and its own dimension: a kernel shared between threads must not mix up sizes either
+            n = 4 + k
+            b = Tensor.from_dok({(0,): 1.5 + k, (2,): 2.5, (3 - (k % 2),): 1.0 + 2 * k, (n - 1,): 0.5},
+                                dimensions=(n,), format="s")
+            c = Tensor.from_dok({(2,): 4.0 * (k + 1), ((3 + k) % 4,): 8.0, (n - 1,): 2.0}, dimensions=(n,), format="s")
             self.inputs.append((b, c))
         self.expected = {}
         for k, cname in enumerate(self.calls):
